@@ -67,6 +67,9 @@ def cases(ctx):
                 yield {"k": "chain", "seed": seed.hex(), "steps": steps, "neuter_at": 300, "deep": True}
                 idxs = [r.getrandbits(32) for _ in range(255)]
                 yield {"k": "chain", "seed": seed.hex(), "steps": [{"path": path_str(r, idxs), "idxs": idxs}], "neuter_at": 300, "deep": True}
+    for i in range(40 if t else 2):
+        yield {"k": "random", "which": "prv", "steps": [{"derive": ridx(r)}, {"reparse": True}, {"derive": ridx(r)}]}
+        yield {"k": "random", "which": "pub", "steps": [{"derive": ridx(r) % 2**31}, {"reparse": True}]}
     for i in range(60 if t else 3):
         kx = r.randrange(1, ec.N)
         yield {"k": "ctor", "key": "%064x" % kx, "chain": gen.rbytes(r, 32).hex(), "depth": r.choice([0, 1, 2, 5, 255]), "index": ridx(r), "fp": (None if r.random() < 0.6 else r.choice(["00000000", gen.rbytes(r, 4).hex()]))}
@@ -210,6 +213,41 @@ def judge(ctx, case):
                 last = ps[len(expect)] if len(ps) > len(expect) else None
                 if last is None or "err" not in last:
                     ctx.viol("hardened derivation from an extended public key is not refused with an error", {"resp": str(last)[:200]})
+    elif k == "random":
+        ctx.hit("random_start")
+        which = case["which"]
+        steps = [{q: v for q, v in s_.items()} for s_ in case["steps"]]
+        r = ctx.call({"op": "bip32", "start": {"random": which}, "steps": steps})
+        ctx.ev()
+        if "ok" not in r or not r["ok"] or ("prv" if which == "prv" else "pub") not in r["ok"][0]:
+            ctx.viol("randomly generated extended key could not be produced / serialised", {"resp": str(r)[:300]})
+            return
+        snaps = r["ok"]
+        s0 = snaps[0][which]
+        try:
+            if which == "prv":
+                kx = int(s0["key"], 16)
+                P = ec.mul_g(kx)
+            else:
+                kx = None
+                P = ec.parse_pub(bytes.fromhex(s0["pub"]["ok"]))
+            node = bip32.Node(kx, P, bytes.fromhex(s0["chain"]), s0["depth"], s0["index"], bytes.fromhex(s0["fp"]))
+        except Exception as e:
+            ctx.viol("randomly generated extended key has unusable fields", {"snap": str(s0)[:300], "e": str(e)})
+            return
+        if (s0["depth"], s0["index"], s0["fp"]) != (0, 0, "00000000"):
+            ctx.viol("randomly generated extended key is not a master key (depth/index/fingerprint non-zero)", {"snap": str(s0)[:300]})
+        if not cmp_node(ctx, snaps[0], node, "from_random (%s): fields vs serialised string" % which):
+            return
+        for st, snap in zip(case["steps"], snaps[1:]):
+            if "derive" in st:
+                node = bip32.ckd_priv(node, st["derive"]) if which == "prv" else bip32.ckd_pub(node, st["derive"])
+                if node is None:
+                    return
+            if not cmp_node(ctx, snap, node, "derivation / round-trip from a randomly generated %s key" % ("private" if which == "prv" else "public")):
+                return
+        if len(snaps) != len(case["steps"]) + 1:
+            ctx.viol("derivation chain from a randomly generated key stopped early", {"last": str(snaps[-1])[:200]})
     elif k == "ctor":
         ctx.hit("ctor")
         kx = int(case["key"], 16)
